@@ -5,13 +5,22 @@ package cert
 // Contracts for the deductive verifier in /verif (govc). This file contains comments only; it is compiled
 // only with the build tag "verif" and adds no code. Syntax: /verif/DESIGN.md, Appendix A.
 
-// OidFromString: the parsed value and the well-formedness of a dotted OID are functions of the text.
+// OidFromString: one arc per dot-separated piece, each the decimal value of its text; an empty string is the empty OID;
+// any piece that is not a number fitting an int is an error. isOidStr/parseOid name that outcome for callers' specs.
 //@ func OidFromString returns (oid, err)
-//@   props C03 C09
-//@   unverified strings.Split/Atoi loop not yet contracted
+//@   props C03 C09 C06 C07 C19
 //@   uses names.smt2
+//@   let N = count(s, ".") + 1
+//@   ensures @C03,C06,C07,C19 s == "" ==> err == nil && len(oid) == 0
+//@   ensures @C03,C06,C07,C19 s != "" ==> ((err == nil) <==> allIntFrom(s, 0, N))
+//@   ensures @C03,C06,C07,C19 s != "" && err == nil ==> len(oid) == N && (forall k in [0, N) :: oid[k] == intval(splitPart(s, ".", k)))
+//@   ensures err != nil ==> oid == nil
 //@   abstracts (err == nil) <==> isOidStr(s)
 //@   abstracts err == nil ==> oidv(oid) == parseOid(s)
+//@   loop 1
+//@     invariant 0 <= idx && idx <= len(oidList)
+//@     invariant @C03,C06,C07,C19 forall k in [0, idx) :: oid[k] == intval(oidList[k])
+//@     invariant @C03,C06,C07,C19 allIntFrom(s, idx, N) == allIntFrom(s, 0, N)
 
 // ---- tables (C01, C02, C05)
 //@ func tables
